@@ -26,8 +26,16 @@ def pmap(fn: Callable, cases: Sequence, chunk: int = 0, procs: int = 0) -> list:
         chunk = max(1, min(64, len(cases) // (procs * 4) or 1))
     chunks = [(fn, cases[i:i + chunk]) for i in range(0, len(cases), chunk)]
     ctx = mp.get_context("fork")
-    with ctx.Pool(min(procs, len(chunks))) as pool:
-        out = []
-        for part in pool.imap(_call, chunks):
-            out.extend(part)
+    # a big parent heap (e.g. 100k abstract pages) makes every cyclic collection in the children walk - and thereby copy -
+    # all of it: collect once, then park the parent's objects in the permanent generation for the lifetime of the pool
+    import gc
+    gc.collect()
+    gc.freeze()
+    try:
+        with ctx.Pool(min(procs, len(chunks))) as pool:
+            out = []
+            for part in pool.imap(_call, chunks):
+                out.extend(part)
+    finally:
+        gc.unfreeze()
     return out
